@@ -85,16 +85,30 @@ def run(rng, tier, res=None, want=("knnpred", "select")):
                 orig_cut = o._normalized_cut
                 state_before_final = {}
 
+                inject = rng.random() < 0.5
+                inj = [rng.choice([0.0, 0.5, 1.0, 1.0, 1.5, 2.0, 6.0]) for _ in range(max_k + 2)]
+                if inject and rng.random() < 0.5:
+                    inj = [v if v != 0.0 else 1.0 for v in inj]     # no zero: every candidate is evaluated
+
                 def cut_wrap(k, _f=orig_cut):
-                    v = _f(k); crit.append((k, v)); return v
+                    v = _f(k)
+                    if inject:      # the selection rule is specified for EVERY criterion sequence: substitute one
+                        v = inj[len(crit)]
+                    crit.append((k, v)); return v
                 o._normalized_cut = cut_wrap
                 o.fit(X, Y)
             else:
                 o = KS.KNNSupervisedOPF(max_k=max_k, distance=metric)
                 accs = []
 
+                inject = rng.random() < 0.5
+                inj = [rng.choice([0.0, 0.0, 0.25, 0.5, 0.5, 0.75, 1.0]) for _ in range(max_k + 2)]
+
                 def acc_wrap(a, b):
-                    v = G.opf_accuracy(a, b); crit.append(v); return v
+                    v = G.opf_accuracy(a, b)
+                    if inject:
+                        v = inj[len(crit)]
+                    crit.append(v); return v
                 KS.g = Proxy(G, opf_accuracy=acc_wrap)
                 try:
                     o.fit(X, Y, Xv, Yv)
@@ -103,6 +117,7 @@ def run(rng, tier, res=None, want=("knnpred", "select")):
         except Exception as ex:
             viol("C16", f"fit raised {type(ex).__name__}: {ex}", meta)
             continue
+        res.hit("criterion_injected" if inject else "criterion_real")
         if X.tobytes() != Xb or Y.tobytes() != Yb or Xv.tobytes() != Xvb:
             viol("C07", "fit modified caller arrays", meta)
         sg = o.subgraph
@@ -186,10 +201,13 @@ def run(rng, tier, res=None, want=("knnpred", "select")):
             def min_wrap(a, b):
                 calls.append((a, b)); return real_np.minimum(a, b)
             mod.np = Proxy(real_np, minimum=min_wrap)
+            fb0 = b"".join(a.features.tobytes() for a in nd)
             try:
                 out = o.predict(Q)
             finally:
                 mod.np = real_np
+            if b"".join(a.features.tobytes() for a in nd) != fb0:
+                viol("C09", "predict modified the fitted model's stored features: later predictions depend on the call history", meta)
             preds, clus = (out if unsup else (out, [0] * nq))
             costs = [enc(a.cost) for a in nd]
             labs = [a.predicted_label for a in nd]
